@@ -449,9 +449,40 @@ func runGpromise(c *Ctx) {
 		if sig, ok := d.Obj.Type().(*types.Signature); ok && sig.Results().Len() == 1 {
 			resT = sig.Results().At(0).Type()
 		}
+		// … and of those, the ones MemoizeFunc itself returns (directly or through the local they are bound
+		// to); closures the returned one calls are walked in place
+		returned := map[*ast.FuncLit]bool{}
+		{
+			ei := core.EscapesOf(c.Prog, d)
+			var visit func(n ast.Node)
+			visit = func(n ast.Node) {
+				ast.Inspect(n, func(x ast.Node) bool {
+					if _, isLit := x.(*ast.FuncLit); isLit {
+						return false // returns of nested literals are not MemoizeFunc's
+					}
+					if rs, ok := x.(*ast.ReturnStmt); ok {
+						for _, r := range rs.Results {
+							switch y := unparen(r).(type) {
+							case *ast.FuncLit:
+								returned[y] = true
+							case *ast.Ident:
+								for _, bl := range ei.Bound[d.Pkg.TypesInfo.Uses[y]] {
+									returned[bl] = true
+								}
+							}
+						}
+					}
+					return true
+				})
+			}
+			visit(d.Decl.Body)
+		}
 		li := 0
 		for _, l := range escapingLits(c, d) {
 			if lt := d.Pkg.TypesInfo.TypeOf(l); resT != nil && lt != nil && !types.Identical(lt, resT) {
+				continue
+			}
+			if len(returned) > 0 && !returned[l] {
 				continue
 			}
 			li++
